@@ -122,6 +122,9 @@ HARNESSES = [
     {"p1": 1, "p2": 0, "via": "direct", "mask": [], "cycles": 2},
     {"p1": 1, "p2": 0, "via": "log", "mask": [1], "cycles": 2},
     {"p1": 2, "p2": 2, "via": "direct", "mask": [], "cycles": 1},
+    # after the first cycle stopService is called once more (it is rejected: the writer is not
+    # registered any more); the second cycle must be unaffected
+    {"p1": 1, "p2": 0, "via": "direct", "mask": [], "cycles": 2, "double_stop": True},
 ]
 NSHARDS = 6
 
@@ -213,6 +216,12 @@ def run_harness(hi, bound, shard, lines=True):
                 events.append(("stop-completed", [m for m, _ in written]))
                 if h["p2"]:
                     p2.join()
+                if h.get("double_stop") and cycle == 0:
+                    try:
+                        w.stopService()
+                        events.append(("second-stop-accepted",))
+                    except ValueError:
+                        events.append(("second-stop-rejected",))
                 offered.append("CYCLE-END")
 
         def observe(s):
@@ -289,7 +298,7 @@ def run_harness(hi, bound, shard, lines=True):
                 before = True
             elif before:
                 must_by_cycle[-1].append(e)
-        for ci, ev in enumerate(o["events"]):
+        for ci, ev in enumerate([e for e in o["events"] if e[0] == "stop-completed"]):
             lacking = [m for m in must_by_cycle[ci] if m not in ev[1]]
             if lacking:
                 viol.append(("stop-completed-before-drain", dict(info, lacking=lacking)))
